@@ -1,13 +1,16 @@
 """C09 -- every transmission uses an enabled in-band channel, a legal data rate and power; channel selection terminates."""
 import re
-from .. import core, machist, macstage, lw
+from .. import adevhist, ndevhist, core, machist, macstage, lw
 from .c10 import DRS, FAM
 
 ID = "C09"
 THEOREMS = ["C09_plan_invariant_initial", "C09_plan_invariant_cflist", "C09_plan_invariant_new_channel", "C09_plan_invariant_dl_channel",
             "C09_dynamic_data_uplink", "C09_dynamic_join_request", "C09_fixed_data_uplink", "C09_join_data_rates", "C09_dynamic_usable_channel",
             "C09_fixed_usable_channel", "C09_dynamic_selection_progress", "C09_power_bound",
-            "C09_termination_every_stream_refuted_join", "C09_termination_every_stream_refuted_data"]
+            "C09_termination_every_stream_refuted_join", "C09_termination_every_stream_refuted_data",
+            "C09_every_selection_path_legal", "C09_send_transmission_legal", "C09_join_transmission_legal",
+            "C09_nb_every_transmission_legal", "C09_nb_fresh_device"]
+FETX = re.compile(r"tx\[(\d+)/(\d+)/(\d+) pw=(-?\d+) ([0-9a-f]*)\]")
 TXRE = re.compile(r"TX pw=(-?\d+) rf=(\d+)/(\d+)/(\d+)/(\d+)")
 SNAP = re.compile(r"dr=(\d+) rx1_delay=(\d+) pw=(-?\d+) rx1off=(\d+) rx2dr=(-?\d+) rx2f=(-?\d+)")
 # RP002, written independently of the implementation
@@ -236,6 +239,33 @@ def known_probes():
     ]
 
 
+def frontend_oracle(case, impl, model=None):
+    """every frame a front-end hands to the radio: in band / on the uplink channel map with the bandwidth of its kind, a LoRa data rate the
+    region allows for uplinks (join requests: a default join channel / the join data rate of the channel kind), power <= 127 and <= the EIRP limit"""
+    region = int(re.search(r"r=(\d+)", case).group(1))
+    for f, sf, bw, pw, frame in FETX.findall(impl):
+        f, sf, bw, pw = int(f), int(sf), int(bw), int(pw)
+        join = frame.startswith("00")
+        lo, hi = BAND[region]
+        if not lo <= f <= hi:
+            return {"kind": "front-end transmission outside the region's band", "freq": f, "band": [lo, hi]}
+        if region in UPMAP:
+            if f not in UPMAP[region]:
+                return {"kind": "front-end transmission on a frequency that is not an uplink channel of the fixed plan", "freq": f}
+            wide = UPMAP[region].index(f) >= 64
+            if (bw == 9) != wide:
+                return {"kind": "front-end transmission: bandwidth does not match the channel kind", "freq": f, "bw_index": bw}
+            if join and (sf, bw) != JOIN_DR[region][wide]:
+                return {"kind": "join request not at the join data rate of its channel kind", "sf_bw": [sf, bw]}
+        elif join and f not in JOIN_FREQS[region]:
+            return {"kind": "join request not on a default join channel", "freq": f}
+        if (sf, bw) not in UPLINK_SFBW[region]:
+            return {"kind": "front-end transmission at a data rate the region does not allow for uplinks", "sf_bw": [sf, bw]}
+        if pw > 127 or pw > MAX_EIRP[region]:
+            return {"kind": "front-end transmission above the regional power limit", "pw": pw}
+    return None
+
+
 def run(rep, tier, rng):
     core.proof_stage(rep, ID, THEOREMS)
     if not core.build_both(rep):
@@ -244,6 +274,9 @@ def run(rep, tier, rng):
     lines = gen(rng, tier)
     core.diff_stage(rep, "X:C09:mac-histories(tx)", lines, macstage.make_judge([], extra=oracle))
     macstage.oracle_pass(rep, lines, [], extra=oracle)
+    # the front-ends (C09_nb_every_transmission_legal speaks of nb_device through this correspondence; async_device drives the same MAC)
+    fe = ndevhist.histories(rng.fork("ndev"), tier) + adevhist.histories(rng.fork("adev"), tier)
+    core.diff_stage(rep, "X:C09:front-ends", fe, frontend_oracle)
     # known finding: the literal "every random stream"
     known = core.load_known(ID)
     probes = known_probes()
